@@ -399,7 +399,7 @@ reg("loggamma_pole", "loggamma", lambda c, n: c.loggamma(-n), lambda n: RAISES, 
 MM = "metamorphic"
 reg("m_gamma_rec", "gamma(x) & gamma(x+1)", lambda c, x: (c.gamma(M(c, x)), c.gamma(M(c, x + 1))), gen=lambda rng, p: [g_x(rng, p, -30, 60)],
     build=b_gamma_rec, w=2.5, regime=MM)
-reg("m_gamma_rec_big", "gamma(x) & gamma(x+1)", lambda c, x: (c.gamma(M(c, x)), c.gamma(M(c, x + 1))), gen=lambda rng, p: [g_x(rng, p, 100, 3000)],
+reg("m_gamma_rec_big", "gamma(x) & gamma(x+1)", lambda c, x: (c.gamma(M(c, x)), c.gamma(M(c, x + 1))), gen=lambda rng, p: [g_x(rng, p, 100, 600)],
     build=b_gamma_rec, w=1.0, regime=MM)
 reg("m_rgamma_rec", "rgamma(x) & rgamma(x+1)", lambda c, x: (c.rgamma(M(c, x)), c.rgamma(M(c, x + 1))), gen=lambda rng, p: [g_x(rng, p, -30, 60)],
     build=b_rgamma_rec, w=1.2, regime=MM)
